@@ -27,7 +27,7 @@ import (
 // the committed file is the table. Cases in which one cell is assigned two different values are not compared.
 func init() {
 	core.Extend("C05", "family selfjoin: one table under two aliases in a multi-table UPDATE / DELETE (3 rows; file and temporary table; 13 (DELETE: 14) join conditions pairing rows one to one x with / without WHERE x "+
-		"targets a+b, b+a, a, b x 8 SET lists (constants, values of the other alias, the same column through both aliases) x 6 runs); oracle: reference computed from the pairs of the join - the union of the edits named through either alias, "+
+		"targets a+b, b+a, a, b x 8 SET lists (constants, values of the other alias, the same column through both aliases) x 6 runs (thorough: 16)); oracle: reference computed from the pairs of the join - the union of the edits named through either alias, "+
 		"all other cells and the order unchanged, counts per alias or of distinct rows, committed file", c05SelfJoinRun)
 }
 
@@ -240,7 +240,7 @@ func c05SJTableCSV(env *drv.Env) (string, error) {
 	return s, nil
 }
 
-const c05SJRuns = 6
+const c05SJRuns = 6 // thorough: 16
 
 func c05SJOne(c *core.Ctx, dir string, k c05SJCase) {
 	two := k.Counts[0] >= 0 && k.Counts[1] >= 0
@@ -253,7 +253,11 @@ func c05SJOne(c *core.Ctx, dir string, k c05SJCase) {
 	}
 	initial := c05SJCSV(c05SJInit)
 	c.Eval("selfjoin|"+k.Table+"|"+k.SQL, k.Want != initial)
-	for run := 0; run < c05SJRuns; run++ {
+	runs := c05SJRuns
+	if c.Thorough() {
+		runs = 16
+	}
+	for run := 0; run < runs; run++ {
 		drv.ClearDir(dir)
 		if k.Table == "file" {
 			drv.WriteFiles(dir, map[string]string{"t.csv": initial})
@@ -268,7 +272,7 @@ func c05SJOne(c *core.Ctx, dir string, k c05SJCase) {
 				return
 			}
 		}
-		where := fmt.Sprintf("%s table t = %q: %s%s; (run %d of %d)", k.Table, initial, prog, k.SQL, run+1, c05SJRuns)
+		where := fmt.Sprintf("%s table t = %q: %s%s; (run %d of %d)", k.Table, initial, prog, k.SQL, run+1, runs)
 		r := env.Exec(k.SQL + ";")
 		if r.Panic != nil || r.Err != nil {
 			env.Close()
